@@ -131,6 +131,21 @@ def multi_scenarios():
             sc[name] = base(evs, se, dict(fshocks=[
                 dict(target=ta, session=sa, triggerTime=0 if sa != sb else 1, length=2, rate=0.5, enabled=True),
                 dict(target=tb, session=sb, triggerTime=1, length=2, rate=-0.25, enabled=True)]), name)
+    # three sessions, the shock listed under the third (its trigger time counts from the sum of the first two)
+    for kind in ("f", "m"):
+        for tt in (0, 1):
+            name = "%sshock_in_third_session:t%d" % (kind, tt)
+            markets = [dict(name="M0", drift=DRIFT["M0"]), dict(name="M1", drift=DRIFT["M1"], tick=0.5)]
+            ags = [dict(name="A0", menu=MENU, program=[1, 1, 4, 1, 7, 1, 1], markets=["M0", "M1"]),
+                   dict(name="A1", menu=MENU, program=[2, 3, 2, 2, 3, 2, 2], markets=["M0", "M1"])]
+            if kind == "f":
+                evs = {"SH": {"class": "FundamentalPriceShock", "target": "M0", "triggerTime": tt, "priceChangeRate": 0.5, "shockTimeLength": 2}}
+                meta = dict(fshocks=[dict(target="M0", session=2, triggerTime=tt, length=2, rate=0.5, enabled=True)])
+            else:
+                evs = {"SH": {"class": "OrderMistakeShock", "target": "M0", "triggerTime": tt, "priceChangeRate": -0.5, "orderVolume": 5, "orderTimeLength": 2}}
+                meta = dict(mshocks=[dict(target="M0", session=2, triggerTime=tt, rate=-0.5, volume=5, lifetime=2, enabled=True)])
+            ss = [S(0, 3, True, True, maxNormalOrders=2), S(1, 1, True, True, maxNormalOrders=2), S(2, 3, True, True, maxNormalOrders=2, events=["SH"])]
+            sc[name] = Scenario(name, mkcfg(ss, markets=markets, agents=ags, events=evs), meta=dict(meta, initial={"M0": 100.0, "M1": 100.0}, drift=DRIFT))
     # shocks whose entry extends a template and overrides fields with values that happen to be falsy
     # (enabled: false -- the shock must not act; triggerTime: 0 -- it acts at the session's first step)
     for kind in ("f", "m"):
